@@ -89,7 +89,9 @@ def wl_plain(ctx, rng, case):
                     f.add(key)
                 else:
                     case.op("add_alt", key)
-                    f.add_alt(f.hashes(key) if rng.random() < 0.5 else f.hashes(key, f.number_hashes + rng.randint(1, 6)))
+                    arg, cp = bl.alt_arg(ctx, f.hashes(key) if rng.random() < 0.5 else f.hashes(key, f.number_hashes + rng.randint(1, 6)))
+                    f.add_alt(arg)
+                    bl.arg_unchanged(ctx, arg, cp, "add_alt")
                 if key not in shadow:
                     shadow.append(key)
                 ctx.count("op.add")
@@ -292,7 +294,9 @@ def wl_expanding(ctx, rng, case):
                     f.add(key, force) if force else f.add(key)
                 else:
                     case.op("add_alt", key, force)
-                    f.add_alt((hf or _default_hf())(key, k + rng.choice([0, 0, 1, 4])), force)
+                    arg, cp = bl.alt_arg(ctx, (hf or _default_hf())(key, k + rng.choice([0, 0, 1, 4])))
+                    f.add_alt(arg, force)
+                    bl.arg_unchanged(ctx, arg, cp, "add_alt")
                 if key not in shadow:
                     shadow.append(key)
                 ctx.count("op.add")
@@ -459,6 +463,76 @@ def wl_many_keys(ctx, rng, case):
         sc.cleanup()
 
 
+def wl_large_dense(ctx, rng, case):
+    """LARGE filters (bit arrays of 40 KiB .. 200 KiB, number_bits not a multiple of 8) filled DENSELY: a hand-written strategy sends
+    thousands of keys to chosen positions so that every byte of the array carries a bit of some key; the keys are split over two
+    filters (one possibly on disk), united, exported and loaded back - every key must stay present at every stage"""
+    import probables as P
+
+    for _ in range(40):
+        est, rate = rng.choice([(35000, 0.01), (50000, 0.01), (70000, 0.01), (30000, 0.001), (160000, 0.01)])
+        est += rng.randint(0, 40)
+        mk = refimpl.bloom_sizing_simple(est, rate)
+        if mk and mk[0] % 8 != 0:
+            break
+    m, k = mk
+    nbytes = (m + 7) // 8
+    # one position in every byte (random bit), grouped k at a time into keys
+    pos = []
+    for b in range(nbytes):
+        hi = min(8, m - 8 * b)
+        pos.append(8 * b + rng.randrange(hi))
+    rng.shuffle(pos)
+    table, keys = {}, []
+    for i in range(0, len(pos), k):
+        key = f"dense-{i // k}" if (i // k) % 3 else b"dense-%d" % (i // k)
+        grp = pos[i:i + k]
+        grp = grp + grp[: k - len(grp)]
+        table[key] = [p + m * rng.randint(0, 3) for p in grp]  # values beyond the array size: reduced mod number_bits
+        keys.append(key)
+    hf = gen.TableHash("hand_every_byte", table)
+    case.desc = {"kind": "large dense", "est": est, "rate": rate, "bits": m, "hashes": k, "bytes": nbytes, "n_keys": len(keys)}
+    ctx.observe("large_dense_bytes", nbytes)
+    sc = bl.Scratch(ctx, case)
+    objs = []
+    try:
+        a = P.BloomFilter(est, rate, hash_function=hf)
+        b = P.BloomFilterOnDisk(sc.path("dense"), est, rate, hash_function=hf) if rng.random() < 0.4 else P.BloomFilter(est, rate, hash_function=hf)
+        objs.append(b)
+        ctx.check((a.number_bits, a.number_hashes) == (m, k), "geometry differs from the independent sizing", got=(a.number_bits, a.number_hashes), want=(m, k))
+        for i, key in enumerate(keys):
+            (a if i % 2 else b).add(key)
+
+        def all_present(f, subset, where):
+            missing = [key for key in subset if not f.check(key)]
+            ctx.counters["oracle_evaluations"] += len(subset)
+            if missing:
+                ctx.fail(f"{len(missing)} added keys are reported absent {where} (large, densely filled filter)", first=missing[:5], bits=m, bytes=nbytes)
+
+        all_present(a, keys[1::2], "by the filter they were added to")
+        all_present(b, keys[0::2], "by the filter they were added to")
+        for first, second, tag in ((a, b, "a.union(b)"), (b, a, "b.union(a)")):
+            u = first.union(second)
+            ctx.check(u is not None, f"{tag} returned None")
+            if u.elements_added < 0:
+                continue
+            all_present(u, keys, f"after {tag}")
+            v = P.BloomFilter.frombytes(bytes(u), hash_function=hf)
+            all_present(v, keys, f"after {tag}, export and load")
+        case.op("filled", len(keys))
+        ctx.count("large_dense_cases")
+        ctx.count("full_probes", 6)
+        case.nontrivial = True
+    finally:
+        for o in objs:
+            if hasattr(o, "close"):
+                try:
+                    o.close()
+                except Exception:
+                    pass
+        sc.cleanup()
+
+
 PROP = Prop(
     "C01",
     "exploration",
@@ -469,6 +543,7 @@ PROP = Prop(
     workloads=[
         Workload("boundary", wl_boundary, quick=90, thorough=1800),
         Workload("many_keys", wl_many_keys, quick=12, thorough=600),
+        Workload("large_dense", wl_large_dense, quick=6, thorough=90),
         Workload("plain", wl_plain, quick=1600, thorough=120000),
         Workload("expanding", wl_expanding, quick=1000, thorough=80000),
     ],
